@@ -663,6 +663,67 @@ def run(ctx):
             if any(ch not in ALPHA for ch in seg):
                 ctx.violation({"kind": "b64-alphabet"}, "json_b64encode output outside the alphabet", {"header": repr(h)})
 
+    # ---- histories: a decoded object handed to the caller is the caller's; editing it must
+    # not change what a later decode of the same segment (or of the same token) returns
+    import copy as _copy
+    dist["json_history"] = 0
+    for h in gen_headers(ctx)[:ctx.scale(120, 600)]:
+        if not isinstance(h, dict):
+            continue
+        try:
+            seg = util.json_b64encode(h)
+            d1 = util.json_b64decode(seg)
+        except Exception:
+            continue
+        want = _copy.deepcopy(d1)
+        dist["json_history"] += 1
+        ctx.note_case(("json-history", seg[:40]))
+        try:                                   # the caller edits its copy: top level and nested
+            d1["__edited__"] = 1
+            for k in list(d1):
+                if isinstance(d1[k], list):
+                    d1[k].append("x")
+                elif isinstance(d1[k], dict):
+                    d1[k]["__edited__"] = 1
+                elif k != "__edited__":
+                    d1[k] = "edited"
+        except Exception:
+            pass
+        d2 = call(util.json_b64decode, seg)
+        if d2[0] != "ok" or d2[1] != want:
+            ctx.violation({"kind": "json-roundtrip"},
+                          "json_b64decode of a segment returns another object after the caller edited the result of an earlier decode of the same segment: %r, expected %r" % (repr(d2[1])[:160], repr(want)[:160]),
+                          {"fn": "json history", "segment": seg.decode("ascii"), "expected": repr(want)[:3000]})
+        seg2 = call(util.json_b64encode, want)
+        if seg2[0] != "ok" or seg2[1] != seg:
+            ctx.violation({"kind": "json-roundtrip"}, "json_b64encode of an equal object gives another segment on a later call",
+                          {"fn": "json history", "segment": seg.decode("ascii")})
+    try:                                       # the same through a token
+        from joserfc import jws as _jws2
+        from joserfc.jwk import OctKey as _Oct2
+        _k2 = _Oct2.import_key(b"k" * 32)
+        for hdr in ({"alg": "HS256", "kid": "a"}, {"alg": "HS256", "crit": ["exp"], "exp": 1, "x5c": ["QQ"]}):
+            try:
+                _t2 = _jws2.serialize_compact(hdr, b"p", _k2)
+            except Exception:
+                continue
+            o1 = _jws2.deserialize_compact(_t2, _k2)
+            want = _copy.deepcopy(o1.headers())
+            hh = o1.headers()
+            hh["kid"] = "edited"
+            o1.protected["alg"] = "none"
+            for v in o1.protected.values():
+                if isinstance(v, list):
+                    v.append("x")
+            o2 = call(lambda: _jws2.deserialize_compact(_t2, _k2).headers())
+            dist["json_history"] += 1
+            if o2[0] != "ok" or o2[1] != want:
+                ctx.violation({"kind": "json-roundtrip"},
+                              "deserialize_compact of a token returns header %r after the caller edited the header object of an earlier result (expected %r)" % (o2[1], want),
+                              {"fn": "json history token", "token": _t2})
+    except ImportError:
+        pass
+
     # ---- Gallina JSON printer / parser vs the json module (float-free values)
     import json as _json
     dist.update({"jdump": 0, "jload_ok": 0, "jload_err": 0, "jb64": 0})
